@@ -18,7 +18,7 @@
    former witnesses are now C13_qualified_counted and C13_generic_in_union_counted.
    Parametrised base classes and module-qualified generic containers: Props/C13Generic.v. *)
 From Coq Require Import ZArith NArith List String Permutation.
-From PV Require Import Gen.ClassConst Class.Syntax Class.SetK Class.CBO Class.CBOProofs.
+From PV Require Import Gen.ClassConst Class.Syntax Class.SetK Class.CBO Class.CBOProofs Class.RiskSpec Class.RiskMonoCBO.
 Import ListNotations.
 Open Scope string_scope.
 Open Scope list_scope.
@@ -126,6 +126,14 @@ Theorem C13_risk_table : forall o n,
 Proof. exact cbo_risk_table. Qed.
 Theorem C13_default_thresholds : o_low default_options = 3%Z /\ o_medium default_options = 7%Z.
 Proof. exact default_thresholds. Qed.
+(* the risk level is monotone: a smaller CBO never has a higher level (any thresholds), and raising
+   the thresholds never raises a level *)
+Theorem C13_risk_monotone : forall o n n', (n <= n')%Z ->
+  (risk_rank (assess_risk o n) <= risk_rank (assess_risk o n'))%Z.
+Proof. exact cbo_risk_mono. Qed.
+Theorem C13_risk_threshold_monotone : forall o o' n, (o_low o <= o_low o')%Z -> (o_medium o <= o_medium o')%Z ->
+  (risk_rank (assess_risk o' n) <= risk_rank (assess_risk o n))%Z.
+Proof. exact cbo_risk_threshold_mono. Qed.
 
 Print Assumptions C13_positions_all_visited.
 Print Assumptions C13_nested_positions_all_visited.
@@ -145,3 +153,5 @@ Print Assumptions C13_additive_base.
 Print Assumptions C13_additive_instantiation.
 Print Assumptions C13_risk_table.
 Print Assumptions C13_default_thresholds.
+Print Assumptions C13_risk_monotone.
+Print Assumptions C13_risk_threshold_monotone.
